@@ -195,6 +195,7 @@ class Package:
     targets: dict = field(default_factory=dict)  # "cpp"/"python"/"json"/"matlab" -> {option: value}
     expanded_syntax: float = 0.3  # probability of rendering a type in expanded syntax (decided per package seed)
     render_seed: int = 0
+    self_version: str = ""  # label under which the manifest lists the package's own directory as a version (by a second name)
 
     def defs(self):
         for fn in sorted(self.files):
@@ -514,7 +515,8 @@ def render_tree(pkg: Package, root: str) -> dict:
         if base + "/_package.yml" in files:
             return
         files[base + "/_package.yml"] = render_manifest(
-            p, ["../" + i.dirname for i in p.imports], [(l, "../" + v.dirname) for l, v in p.versions])
+            p, ["../" + i.dirname for i in p.imports],
+            [(l, "../" + v.dirname) for l, v in p.versions] + ([(p.self_version, "../" + p.dirname)] if getattr(p, "self_version", "") else []))
         for fn, text in render_files(p).items():
             files[base + "/" + fn] = text
         for i in p.imports:
